@@ -50,8 +50,8 @@ func init() {
 		Old: "go downloadBundleEntryOverwrite(ctx, de.Additional, bundleDest, fs, chans)", New: "go downloadBundleEntry(ctx, de.Additional, bundleDest, fs, chans)",
 		Expect: "role-mapping"})
 	addWitness(witness{Prop: "C05", Name: "old-filelists-by-target-count", File: "pkg/core/bundle_unpack.go",
-		Old: "\t\tfor _, filelist := range info.filelists {\n\t\t\terr = bundleDest.ConsumableStore.Delete(ctx, filelist)",
-		New: "\t\tfor i := uint64(0); i < bundle.BundleDescriptor.BundleEntriesFileCount; i++ {\n\t\t\tfilelist := model.GetConsumablePathToBundleFileList(bundleDest.BundleID, i)\n\t\t\t_ = info.filelists\n\t\t\terr = bundleDest.ConsumableStore.Delete(ctx, filelist)",
+		Old:    "\t\tfor _, filelist := range info.filelists {\n\t\t\terr = bundleDest.ConsumableStore.Delete(ctx, filelist)",
+		New:    "\t\tfor i := uint64(0); i < bundle.BundleDescriptor.BundleEntriesFileCount; i++ {\n\t\t\tfilelist := model.GetConsumablePathToBundleFileList(bundleDest.BundleID, i)\n\t\t\t_ = info.filelists\n\t\t\terr = bundleDest.ConsumableStore.Delete(ctx, filelist)",
 		Expect: "update-metadata"})
 	addWitness(witness{Prop: "C09", Name: "create-has-then-overwrite", File: "pkg/core/repo_create.go",
 		Old: "err = store.Put(context.Background(), path, bytes.NewReader(r), storage.NoOverWrite)", New: "err = store.Put(context.Background(), path, bytes.NewReader(r), storage.OverWrite)",
@@ -69,8 +69,8 @@ func init() {
 		Old: "\tpth := model.GetArchivePathToLabel(repo, name)", New: "\tpth := model.GetArchivePathToLabel(name, repo)",
 		Expect: "own-repo"})
 	addWitness(witness{Prop: "C10", Name: "squash-skips-label-cleanup", File: "pkg/core/repo_squash.go",
-		Old: "\t// refresh the current list of bundles, just to make sure we are not leaving anything behind",
-		New: "\tif settings.retainTags || settings.retainSemverTags {\n\t\treturn nil\n\t}\n\t// refresh the current list of bundles, just to make sure we are not leaving anything behind",
+		Old:    "\t// refresh the current list of bundles, just to make sure we are not leaving anything behind",
+		New:    "\tif settings.retainTags || settings.retainSemverTags {\n\t\treturn nil\n\t}\n\t// refresh the current list of bundles, just to make sure we are not leaving anything behind",
 		Expect: "label-cleanup"})
 	addWitness(witness{Prop: "C10", Name: "squash-off-by-one", File: "pkg/core/repo_squash.go",
 		Old: "for _, bundle := range bundles[:len(bundles)-settings.retainNLatest] {", New: "for _, bundle := range bundles[:len(bundles)-settings.retainNLatest+1] {",
